@@ -68,3 +68,25 @@ type ErrorMessage struct {
 func (e ErrorMessage) ToString(runID string) string {
 	return fmt.Sprintf("RunID: %s, err: %s, step fatal: %t, server fatal: %t", runID, e.Error, e.StepFatal, e.ServerFatal)
 }
+
+// decOptions are the CBOR decoding options both ends of ATP use. The decoder's defaults (32 nesting levels, 131072
+// array elements or map pairs, valid UTF-8 only) are narrower than what the schemas accept and the encoder writes; a
+// step input or output that passes the schema must not be refused by the transport, which would end the whole session.
+func decOptions() cbor.DecOptions {
+	return cbor.DecOptions{
+		MaxNestedLevels:  65535,
+		MaxArrayElements: 2147483647,
+		MaxMapPairs:      2147483647,
+		UTF8:             cbor.UTF8DecodeInvalid,
+	}
+}
+
+// encMode is the CBOR encoding mode both ends of ATP use. A nil slice or map is an empty list or map for the schemas;
+// the encoder's default would send it as null, which no list or map schema accepts.
+func encMode() cbor.EncMode {
+	mode, err := cbor.EncOptions{NilContainers: cbor.NilContainerAsEmpty}.EncMode()
+	if err != nil {
+		panic(err)
+	}
+	return mode
+}
